@@ -499,14 +499,25 @@ pub fn f_delete(seed: u64, burst: bool) -> Plan {
     // "fresh": the victim is created in the racing phase itself, so consumers and the delete can
     // find it between its registration and its attachment to the topic
     let fresh = !burst && rng.chance(200);
+    // "pushy": the victim is a push subscription whose endpoint is slow, so a push round is in
+    // flight (messages POSTed and not yet answered) when the delete arrives; consumers may wait on
+    // it all the same
+    let pushy = !burst && !fresh && rng.chance(140);
+    if pushy {
+        plan.knobs.push_interval_ms = *rng.pick(&[100u32, 100, 1000]);
+        plan.tags.push("push".into());
+        let slow = if rng.chance(300) { Behaviour::Never } else { Behaviour::Delay(rng.range(1, 9_000), *rng.pick(&[200u16, 200, 500])) };
+        plan.endpoint = EndpointPlan { palette: vec![], fault_attempts: 0, script: vec![slow], after: None };
+    }
     let mut setup = vec![Step::new(Op::CreateTopic { topic: topic.clone() })];
     for j in 0..n_subs {
         if fresh && j == 0 {
             continue;
         }
-        setup.push(Step::new(Op::CreateSub { sub: sub_name("proj-d", 0, j), topic: topic.clone(), ack_deadline: 10, push: None }));
+        let push = if pushy && j == 0 { Some(PushSpec { endpoint: "http://push-0.test/hook".into(), attrs: Default::default(), oidc: None }) } else { None };
+        setup.push(Step::new(Op::CreateSub { sub: sub_name("proj-d", 0, j), topic: topic.clone(), ack_deadline: 10, push }));
     }
-    if rng.chance(500) {
+    if pushy || rng.chance(500) {
         setup.push(Step::new(Op::Publish { topic: topic.clone(), msgs: msgs_r(&mut rng, 1, 5, false) }));
     }
     plan.phases.push(Phase { scripts: vec![setup], advance_us: 0, audit: false });
